@@ -1,7 +1,7 @@
 """Per-property profiles of the tree pipeline (constants of the TLC runs, enabled
 operations, which predicates decide the property)."""
 
-BASE = {"Keys": {1, 2}, "Vals": {1, 2, 3}, "WeakKeys": set(), "MaxSeq": 5, "MaxSealed": 1,
+BASE = {"Keys": {1, 2}, "Vals": {1, 2, 3}, "WeakKeys": set(), "BigVals": set(), "MaxSeq": 5, "MaxSealed": 1,
         "MaxTables": 3, "MaxSnaps": 0, "MaxHist": 3, "DestLevels": {0, 1, 6}, "SampleK": 1,
         "MinLen": 1, "WriteBias": 1}
 
@@ -31,6 +31,18 @@ WEAK_OPS = {"write", "rotate", "flush", "merge", "move", "major", "reopen"}
 
 DRIVE_W = {"write": 10, "batch": 1, "rotate": 2, "flush": 3, "leveled": 5, "major": 0.3, "reopen": 0.3}
 DRIVE_SNAP_W = dict(DRIVE_W, snap=0.8, release=0.6)
+
+
+def blob(threshold, file_target, staleness, age_cutoff, lz4=False):
+    return {"threshold": threshold, "file_target": file_target, "staleness": staleness,
+            "age_cutoff": age_cutoff, "lz4": lz4}
+
+
+# key-value separation lattice: thresholds on both sides of the value sizes, one blob per
+# file and shared files, staleness / age cut-off extremes, blob compression
+BLOBS = [blob(64, 1, 0.0001, 1.0), blob(64, 1 << 26, 0.5, 1.0), blob(1, 1, 0.0001, 0.5, True),
+         blob(64, 300, 1.0, 1.0), blob(64, 1, 0.0001, 0.0), blob(100000, 1, 0.5, 1.0),
+         blob(64, 1 << 26, 0.0001, 1.0, True), blob(1, 250, 0.3, 1.0)]
 
 
 def tree_profile(nkeys, viol_kinds, quick_verify, quick_gen, thorough_verify, thorough_gen, **kw):
@@ -116,6 +128,32 @@ PROFILES = {
         [sim(1500, 30, Keys={1, 2, 3}, MaxSeq=24, MaxTables=6, MaxHist=30, Ops=CORE_OPS | {"ingest"}, WriteBias=4),
          edges(6, 80000, timeout=2400, Ops=CORE1, MaxSeq=6, MinLen=9),
          drv(400, 400, dict(DRIVE_W, ingest=0.5))]),
+    # C08 key-value separation is invisible
+    "C08": tree_profile(
+        6, ["READ", "SCAN", "SCANX", "SNAPRES", "DANGLE", "PTR", "INVENT", "LOST", "OPFAIL"],
+        c(Ops=CORE1 | {"snap"}, MaxSeq=5, MaxSnaps=1, BigVals={2, 3}),
+        [sim(40, 24, MaxSeq=16, MaxTables=5, MaxHist=20, MaxSnaps=2, MaxSealed=2, BigVals={2, 3},
+             Ops=CORE1 | {"snap"}, WriteBias=3),
+         drv(32, 160, DRIVE_SNAP_W)],
+        c(Ops=CORE1 | {"snap"}, MaxSeq=6, MaxSnaps=1, BigVals={2, 3}),
+        [sim(1200, 30, Keys={1, 2, 3}, MaxSeq=24, MaxTables=6, MaxHist=30, MaxSnaps=2, MaxSealed=2,
+             BigVals={2, 3}, Ops=CORE1 | {"snap"}, WriteBias=4),
+         drv(400, 400, DRIVE_SNAP_W)],
+        blobs=BLOBS, val_alphas=[1, 1, 2], scans={"prob": 0.3, "burst": 1},
+        regress=["findings/C09-blob-id-reuse.replay.json"]),
+    # C09 blob garbage statistics
+    "C09": tree_profile(
+        6, ["GC", "STALE", "LINKS", "DEAD", "PTR", "OPFAIL"],
+        c(Ops=CORE1, MaxSeq=5, BigVals={2, 3}),
+        [sim(40, 24, MaxSeq=16, MaxTables=5, MaxHist=20, MaxSealed=2, BigVals={2, 3},
+             Ops=CORE1 | {"droprange"}, WriteBias=3),
+         drv(32, 160, dict(DRIVE_W, droprange=0.6))],
+        c(Ops=CORE1, MaxSeq=6, BigVals={2, 3}),
+        [sim(1200, 30, Keys={1, 2, 3}, MaxSeq=24, MaxTables=6, MaxHist=30, MaxSealed=2,
+             BigVals={2, 3}, Ops=CORE1 | {"droprange"}, WriteBias=4),
+         drv(400, 400, dict(DRIVE_W, droprange=0.6))],
+        blobs=BLOBS, val_alphas=[1, 1, 2],
+        regress=["findings/C09-blob-id-reuse.replay.json", "findings/C09-with-dropped-ondisk.replay.json"]),
     # C13 weak deletes under the single-delete discipline
     "C13": tree_profile(
         4, ["READ", "SCAN", "OPFAIL"],
@@ -125,7 +163,32 @@ PROFILES = {
         c(Keys={1}, WeakKeys={1}, MaxSeq=9, MaxSealed=2, Ops=WEAK_OPS),
         [sim(800, 30, WeakKeys={1, 2}, MaxSeq=24, MaxTables=6, MaxHist=30, MaxSealed=2, Ops=WEAK_OPS, WriteBias=2),
          drv(300, 400, DRIVE_W, weak_keys=(1, 2, 3))],
-        phys_count=8, key_alphas=[0, 2]),
+        phys_count=8, key_alphas=[0, 2], regress=["findings/C13-weak-pair-drain.replay.json"]),
+    # C14 bulk ingestion
+    "C14": tree_profile(
+        4, ["READ", "SCAN", "SNAPRES", "INVENT", "LOST", "OPFAIL"],
+        c(Ops={"write", "rotate", "flush", "major", "snap", "ingest"}, MaxSeq=4, MaxSnaps=1, MaxHist=4,
+          DestLevels={6}),
+        [sim(40, 24, MaxSeq=18, MaxTables=5, MaxHist=20, MaxSnaps=2, MaxSealed=2,
+             Ops=SNAP_OPS | {"reopen", "ingest"}, WriteBias=3),
+         drv(24, 140, dict(DRIVE_SNAP_W, ingest=2.5))],
+        c(Ops=SNAP_OPS | {"ingest"}, MaxSeq=6, MaxSnaps=1, MaxHist=4, DestLevels={0, 6}),
+        [sim(1000, 30, Keys={1, 2, 3}, MaxSeq=26, MaxTables=6, MaxHist=30, MaxSnaps=2, MaxSealed=2,
+             Ops=SNAP_OPS | {"reopen", "ingest"}, WriteBias=4),
+         drv(300, 400, dict(DRIVE_SNAP_W, ingest=2.5))]),
+    # C15 drop_range and clear
+    "C15": tree_profile(
+        4, ["READ", "SCAN", "SNAPRES", "OPFAIL"],
+        c(Ops={"write", "rotate", "flush", "merge", "snap", "droprange", "clear"}, MaxSeq=4, MaxSnaps=1,
+          MaxHist=4, DestLevels={6}),
+        [sim(12, 24, MaxSeq=18, MaxTables=5, MaxHist=20, MaxSnaps=2, MaxSealed=2,
+             Ops=SNAP_OPS | {"reopen", "droprange", "clear"}, WriteBias=3),
+         drv(24, 140, dict(DRIVE_SNAP_W, droprange=2.0, clear=0.5))],
+        c(Ops=SNAP_OPS | {"droprange", "clear"}, MaxSeq=5, MaxSnaps=2, MaxHist=4, DestLevels={0, 6}),
+        [sim(1000, 30, Keys={1, 2, 3}, MaxSeq=26, MaxTables=6, MaxHist=30, MaxSnaps=2, MaxSealed=2,
+             Ops=SNAP_OPS | {"reopen", "droprange", "clear"}, WriteBias=4),
+         drv(300, 400, dict(DRIVE_SNAP_W, droprange=2.0, clear=0.5))],
+        regress=["findings/C15-leveled-empty-next-level.replay.json"]),
     # C18 sequence number high-water marks
     "C18": tree_profile(
         6, ["HI", "HIA"],
